@@ -21,6 +21,12 @@ Supported subset
   returns the current state when the fuel runs out), calls of local closures (inlined),
   `return`; `assert` and `logging.*` are skipped (asserts are listed in the doc comment).
 
+* `continue` and `break` in a `while` body: two Boolean control variables; after a `continue`/`break`
+  every assignment of the iteration is guarded (`x := if skipped then x else v`), and the loop
+  stops once the `break` flag is set;
+* dictionaries with constant string keys (`kwargs = {'a': 1, …}`, `kwargs['b'] = v`, `Cls(**kwargs)`)
+  are records whose keys may be absent (an absent integer key is `none`); values that are not
+  integers (strings, bytes) are dropped and listed as skipped;
 * `if c: return x` followed by more statements (an early return) becomes `if c then x else <rest>`;
 * exceptions and calls (used by gen_liveindex.py): `raise` is translated into a *failure
   condition* – the disjunction of the path conditions of all `raise` statements – and the
@@ -49,7 +55,8 @@ from __future__ import annotations
 import ast
 import copy
 
-INT, OPT, PROP, STR = "Int", "Option Int", "Prop", "<str>"
+INT, OPT, PROP, STR, BOOL = "Int", "Option Int", "Prop", "<str>", "Bool"
+SKIP, BRK = "__skip", "__brk"      # control variables of a loop body (`continue` / `break`)
 
 
 class Ret:
@@ -73,6 +80,8 @@ LEAN_RESERVED = {"end", "from", "at", "do", "then", "else", "if", "let", "fun", 
 
 
 def lean_ident(key: str) -> str:
+    if key in (SKIP, BRK):
+        return key.strip("_") + "_"
     k = key.replace(".", "_")
     return k + "_" if k in LEAN_RESERVED else k
 
@@ -159,6 +168,7 @@ class Translator:
         self.methods: dict[tuple[str, str], ast.FunctionDef] = {}   # (object name, method) -> definition
         self.tuple_classes: set[str] = set()                # NamedTuple constructors = tuples
         self.skip_assign: set[str] = set()                  # assignment texts that only create aliases
+        self.opaque_calls: set[str] = set()                 # callees whose (non-integer) result is never translated
         self.skipped: list[str] = []
 
     # ---- expressions ---------------------------------------------------------------------
@@ -209,6 +219,12 @@ class Translator:
                     self.used_attrs.append(v)
                 return v, INT
             raise CannotTranslate(f"unknown attribute {ast.unparse(e)}")
+        if (isinstance(e, ast.Subscript) and isinstance(e.value, ast.Name) and c.records.get(e.value.id) == "__dict__"
+                and isinstance(e.slice, ast.Constant) and isinstance(e.slice.value, str)):
+            v, t = self.lookup(c, f"{e.value.id}.{e.slice.value}")
+            if t != INT:
+                raise CannotTranslate(f"{ast.unparse(e)} may be absent")
+            return v, t
         if isinstance(e, ast.Attribute) and e.attr == "duration" and self.is_segment(e):
             i, t = self.ex(c, e.value.slice)
             self.need(t, INT, e)
@@ -296,6 +312,10 @@ class Translator:
 
     # ---- statements ----------------------------------------------------------------------
     def bind(self, c: Ctx, key: str, lean: str, ty: str):
+        sk = c.env.get(SKIP)
+        if sk is not None and sk[0] != "false" and key != SKIP and key in c.env and c.env[key][1] == ty:
+            # after a `continue`/`break` on some path of this iteration: keep the old value there
+            lean = f"(if {sk[0]} = true then {c.env[key][0]} else {lean})"
         self.counter += 1
         name = f"{lean_ident(key)}_{self.counter}"
         c.lets.append(f"let {name} : {ty} := {lean}")
@@ -355,6 +375,17 @@ class Translator:
                     self.bind(c, lst, f"({cur} ++ [{{ {fields} }}])", f"List {cls.name}")
                     c.shared.add(rec)
                     continue
+                if (isinstance(f, ast.Attribute) and f.attr == "append" and isinstance(f.value, ast.Name)
+                        and f.value.id in c.lists and len(s.value.args) == 1 and isinstance(s.value.args[0], ast.Call)
+                        and isinstance(s.value.args[0].func, ast.Name) and s.value.args[0].func.id in self.classes):
+                    # lst.append(Cls(...)): a fresh object, appended at once
+                    self.counter += 1
+                    tmp = f"tmp{self.counter}"
+                    self.assign(c, ast.Name(id=tmp, ctx=ast.Store()), s.value.args[0])
+                    body2 = ast.parse(f"{f.value.id}.append({tmp})").body
+                    r = self.block(c, body2)
+                    assert r is None
+                    continue
                 raise CannotTranslate(f"call {ast.unparse(s)[:60]}")
             if isinstance(s, ast.Assign) and len(s.targets) == 1:
                 if ast.unparse(s) in self.skip_assign or isinstance(s.value, ast.JoinedStr):
@@ -392,6 +423,15 @@ class Translator:
                     self.skipped.extend("dead: " + ast.unparse(x)[:70] for x in body[idx + 1:])
                     return r
                 continue
+            if isinstance(s, (ast.Continue, ast.Break)):
+                if SKIP not in c.env:
+                    raise CannotTranslate(f"`{ast.unparse(s)}` outside a translated loop")
+                if idx != len(body) - 1:
+                    raise CannotTranslate(f"statements after `{ast.unparse(s)}`")
+                if isinstance(s, ast.Break):
+                    self.bind(c, BRK, "true", BOOL)
+                self.bind(c, SKIP, "true", BOOL)
+                continue
             if isinstance(s, ast.While) and not s.orelse:
                 self.while_loop(c, s)
                 continue
@@ -400,6 +440,8 @@ class Translator:
                     raise CannotTranslate("return in the middle of a block")
                 if isinstance(s.value, ast.Name) and s.value.id in c.lists:
                     return Ret([self.lookup(c, s.value.id)], False)
+                if isinstance(s.value, ast.List) and not s.value.elts and self.list_class:
+                    return Ret([("[]", f"List {self.list_class}")], False)
                 vals = self.values(c, s.value)
                 if vals is RAISED:
                     return RAISED
@@ -420,6 +462,14 @@ class Translator:
             self.bind(c, target.id, lean, ty)
         elif isinstance(target, ast.Attribute) and isinstance(target.value, ast.Name) and target.value.id in c.records:
             self.assign_field(c, target.value.id, target.attr, lean, ty, target)
+        elif (isinstance(target, ast.Subscript) and isinstance(target.value, ast.Name)
+              and c.records.get(target.value.id) == "__dict__" and isinstance(target.slice, ast.Constant)
+              and isinstance(target.slice.value, str)):
+            if target.value.id in c.shared:
+                raise CannotTranslate(f"{ast.unparse(target)} is written after the dictionary was used to build an object")
+            if ty != INT:
+                raise CannotTranslate(f"{ast.unparse(target)}: only integers are stored in a translated dictionary")
+            self.bind(c, f"{target.value.id}.{target.slice.value}", lean, INT)
         else:
             raise CannotTranslate(f"assignment target {ast.unparse(target)}")
 
@@ -467,6 +517,11 @@ class Translator:
         return r.values
 
     def assign(self, c: Ctx, target, value):
+        if isinstance(value, ast.Call) and ast.unparse(value.func) in self.opaque_calls and isinstance(target, ast.Name):
+            # a value outside the translated subset (bytes, str): the name stays unbound, any read of it fails
+            self.skipped.append(ast.unparse(target) + " = " + ast.unparse(value)[:60])
+            c.env.pop(target.id, None)
+            return None
         if isinstance(target, ast.Tuple):
             vals = self.values(c, value)
             if vals is RAISED:
@@ -480,6 +535,47 @@ class Translator:
             return None
         if isinstance(target, ast.Name):
             name = target.id
+            # d = {'k': v, ...}: a record with the (integer-valued) keys as fields
+            if isinstance(value, ast.Dict) and value.keys and all(
+                    isinstance(k, ast.Constant) and isinstance(k.value, str) for k in value.keys):
+                if name in c.env or name in c.lists:
+                    raise CannotTranslate(f"{name} rebound to a dictionary")
+                c.records[name] = "__dict__"
+                c.shared.discard(name)
+                for old in [k for k in c.env if k.startswith(name + ".")]:
+                    del c.env[old]
+                for k, v in zip(value.keys, value.values):
+                    try:
+                        lv, tv = self.ex(c, v)
+                    except CannotTranslate:
+                        lv, tv = None, None
+                    if tv == INT:
+                        self.bind(c, f"{name}.{k.value}", lv, INT)
+                    else:
+                        self.skipped.append(f"dictionary value {name}[{k.value!r}] = {ast.unparse(v)[:40]} (not an integer)")
+                return
+            # rec = Class(**d)
+            if (isinstance(value, ast.Call) and isinstance(value.func, ast.Name) and value.func.id in self.classes
+                    and not value.args and len(value.keywords) == 1 and value.keywords[0].arg is None
+                    and isinstance(value.keywords[0].value, ast.Name)
+                    and c.records.get(value.keywords[0].value.id) == "__dict__"):
+                d = value.keywords[0].value.id
+                cls = self.classes[value.func.id]
+                have = {k[len(d) + 1:] for k in c.env if k.startswith(d + ".")}
+                if have - {n for n, _, _ in cls.fields}:
+                    raise CannotTranslate(f"{cls.name} has no field(s) {sorted(have - {n for n, _, _ in cls.fields})}")
+                if name in c.env or name in c.lists:
+                    raise CannotTranslate(f"{name} rebound to a record")
+                c.records[name] = cls.name
+                c.shared.discard(name)
+                c.shared.add(d)          # the object was built from the dictionary's current contents
+                for n, t, dflt in cls.fields:
+                    if n in have:
+                        v, tv = self.lookup(c, f"{d}.{n}")
+                        self.bind(c, f"{name}.{n}", self.coerce(v, tv, t, value), t)
+                    else:
+                        self.bind(c, f"{name}.{n}", dflt, t)
+                return
             # rec = Class(k=v, ...)
             if isinstance(value, ast.Call) and isinstance(value.func, ast.Name) and value.func.id in self.classes:
                 if value.args:
@@ -561,6 +657,12 @@ class Translator:
                     c.env[key] = (x, tx)
                 else:
                     self.bind(c, key, f"(if {cond} then {x} else {y})", tx)
+            elif "." in key and c.records.get(key.split(".")[0]) == "__dict__":
+                # a dictionary key set on one branch only: present there, absent (none) on the other
+                side = a if key in a.env else b
+                x, tx = side.env[key]
+                some = x if tx == OPT else f"(some {x})"
+                self.bind(c, key, f"(if {cond} then {some} else none)" if side is a else f"(if {cond} then none else {some})", OPT)
             else:
                 c.env.pop(key, None)          # assigned on one branch only: not usable afterwards
 
@@ -597,11 +699,18 @@ class Translator:
         return None
 
     def while_loop(self, c: Ctx, w: ast.While):
+        outer_ctrl = {k: c.env[k] for k in (SKIP, BRK) if k in c.env}
+        if outer_ctrl.get(SKIP, ("false",))[0] != "false":
+            raise CannotTranslate("a loop after a `continue`/`break` of an enclosing loop body")
+        c.env.pop(SKIP, None)
+        c.env[BRK] = ("false", BOOL)
+
         def attempt(shared_at_entry: set):
             inner = Ctx()
             inner.records, inner.lists = dict(c.records), dict(c.lists)
             inner.shared = set(shared_at_entry)
             inner.env = {k: (lean_ident(k), t) for k, (_, t) in c.env.items()}
+            inner.env[SKIP] = ("false", BOOL)
             save_counter = self.counter
             cond, t = self.ex(inner, w.test)
             self.need(t, PROP, w.test)
@@ -612,11 +721,13 @@ class Translator:
         if inner.shared - c.shared:
             # a record appended in one iteration is still the same object in the next one
             inner, cond, _ = attempt(inner.shared)
-        if inner.records != c.records or inner.lists != c.lists:
-            for k in set(inner.records) - set(c.records):
-                if inner.records[k] != "__segment__":
-                    raise CannotTranslate(f"record {k} is created inside the loop")
+        # records created inside the body are locals of one iteration: they are not in the environment at
+        # the start of the next one, so a read before re-creation fails the translation
+        if inner.lists != c.lists:
+            raise CannotTranslate("a list is created inside the loop")
         state = [k for k in inner.writes if k in c.env]
+        if BRK in state:
+            cond = f"((({lean_ident(BRK)} = false)) ∧ {cond})"
         for k in state:
             if inner.env[k][1] != c.env[k][1]:
                 raise CannotTranslate(f"{k} changes type in the loop")
@@ -653,4 +764,7 @@ class Translator:
         for i, k in enumerate(state):
             proj = res + ".2" * i + (".1" if i < len(state) - 1 else "")
             self.bind(c, k, proj, ty(k))
-        c.shared |= inner.shared
+        c.shared |= {r for r in inner.shared if r in c.records}
+        c.env.pop(BRK, None)
+        c.env.pop(SKIP, None)
+        c.env.update(outer_ctrl)
